@@ -114,7 +114,7 @@ def clone_val(v):
     if isinstance(v,Ref): return v
     if isinstance(v,Agg):
         a=Agg(v.ty,[clone_val(x) for x in v.f],v.variant,v.vname); a.ghost=v.ghost; return a
-    if isinstance(v,StringO): return StringO(v.b,v.taint)
+    if isinstance(v,StringO): return StringO(v.b,v.taint,v.ghost)
     if isinstance(v,VecO): return VecO([clone_val(x) for x in v.items])
     if isinstance(v,MapO):
         m=MapO(v.ordered,v.is_set,v.tag); m.e=[[clone_val(k),clone_val(x)] for k,x in v.e]; return m
@@ -459,14 +459,14 @@ def m_lt(op):
 # ----------------------------------------------------------------------------- strings / slices / vec
 def m_to_string(e,run,a,f):
     d=deref(a[0])
-    if isinstance(d,(Str,StringO)): return StringO(d.b,d.taint)
+    if isinstance(d,(Str,StringO)): return StringO(d.b,d.taint,d.ghost)
     if isinstance(d,Int) and d.conc(): return mk_string(str(d.signed_val()))
     if isinstance(d,Int): return mk_string('<sym-int>',True)
     if isinstance(d,Char): return mk_string(chr(d.v))
     # Display impl of an in-crate type
     return e.display(run,a[0])
 def m_string_deref(e,run,a,f):
-    d=deref(a[0]); return Ref(Cell(Str(d.b,True,d.taint)))
+    d=deref(a[0]); return Ref(Cell(Str(d.b,True,d.taint,d.ghost)))
 def m_as_bytes(e,run,a,f):
     d=deref(a[0]); return Ref(Cell(Str(d.b,False,getattr(d,'taint',False))))
 def m_vec_deref(e,run,a,f): return a[0] if isinstance(a[0],Ref) else Ref(Cell(a[0]))
@@ -709,13 +709,13 @@ def m_str_split_char(e,run,a,f):
     parts.append(cur)
     return Iter([Ref(Cell(Str(p))) for p in parts])
 def m_from_str_into_string(e,run,a,f):
-    d=deref(a[0]); return StringO(d.b,getattr(d,'taint',False))
+    d=deref(a[0]); return StringO(d.b,getattr(d,'taint',False),getattr(d,'ghost',None))
 def m_string_from_string_ref(e,run,a,f): return StringO(deref(a[0]).b)
 def m_str_to_owned(e,run,a,f):
     d=deref(a[0])
     if isinstance(d,VecO): return VecO([clone_val(x) for x in d.items])
     if isinstance(d,Str) and not d.is_str: return u8vec(d.b)
-    return StringO(d.b,getattr(d,'taint',False))
+    return StringO(d.b,getattr(d,'taint',False),getattr(d,'ghost',None))
 def m_into_bytes(e,run,a,f): return u8vec(deref(a[0]).b)
 def m_vec_from_slice(e,run,a,f): return m_to_vec(e,run,a,f)
 def m_vec_extend_from_slice(e,run,a,f):
@@ -1640,3 +1640,72 @@ def register_misc2(E):
 _old_register_all6=register_all
 def register_all(E):
     _old_register_all6(E); register_misc2(E)
+
+# ----------------------------------------------------------------------------- chrono text <-> instant (ghost strings)
+# An RFC 3339 text is a string whose bytes are opaque (taint) and whose meaning is carried in .ghost:
+#   {'kind':'rfc3339','local_secs': i64 term (wall-clock fields as seconds), 'nanos': u32 term, 'offset': i32 term (seconds east of UTC)}
+# DateTime<FixedOffset> = Agg('DateTimeFixed',[utc_secs,nanos,offset]);  NaiveDateTime = Agg('NaiveDateTime',[secs,nanos])
+def _parse_rfc3339_concrete(text):
+    import datetime,re as _re
+    m=_re.match(r'^(\d{4})-(\d\d)-(\d\d)[Tt ](\d\d):(\d\d):(\d\d)(\.\d+)?([Zz]|[+-]\d\d:\d\d)$',text)
+    if not m: return None
+    try:
+        dt=datetime.datetime(int(m.group(1)),int(m.group(2)),int(m.group(3)),int(m.group(4)),int(m.group(5)),min(int(m.group(6)),59),tzinfo=datetime.timezone.utc)
+    except ValueError: return None
+    frac=m.group(7); nanos=int((frac[1:]+'000000000')[:9]) if frac else 0
+    z=m.group(8)
+    off=0 if z in 'Zz' else (1 if z[0]=='+' else -1)*(int(z[1:3])*3600+int(z[4:6])*60)
+    return int(dt.timestamp()),nanos,off
+def m_parse_rfc3339(e,run,a,f):
+    s=deref(a[0])
+    if s.ghost and s.ghost.get('kind')=='rfc3339':
+        g=s.ghost
+        utc=g['local_secs']-z3.SignExt(32,g['offset']) if not isinstance(g['offset'],int) else g['local_secs']-g['offset']
+        return ok(Agg('DateTimeFixed',[Int(64,True,utc),Int(32,False,g['nanos']),Int(32,True,g['offset'])]))
+    if s.ghost and s.ghost.get('kind')=='not-rfc3339': return err(Opaque('chrono::ParseError'))
+    c=conc_bytes(s.b)
+    if c is None or s.taint: raise Unsupported('parse_from_rfc3339 of a symbolic string without ghost')
+    r=_parse_rfc3339_concrete(c.decode(errors='replace'))
+    if r is None: return err(Opaque('chrono::ParseError'))
+    return ok(Agg('DateTimeFixed',[Int(64,True,r[0]-r[2]),Int(32,False,r[1]),Int(32,True,r[2])]))
+def m_with_timezone_utc(e,run,a,f):
+    d=deref(a[0]); return Agg('DateTime',[d.f[0],d.f[1]])
+def _off64(d):
+    o=d.f[2]
+    return Int(64,True,o.signed_val()) if o.conc() else Int(64,True,z3.SignExt(32,o.v))
+def m_naive_local(e,run,a,f):
+    d=deref(a[0])
+    if d.ty=='DateTime': return Agg('NaiveDateTime',[d.f[0],d.f[1]])
+    return Agg('NaiveDateTime',[e.binop('Add',d.f[0],_off64(d)),d.f[1]])
+def m_naive_utc(e,run,a,f):
+    d=deref(a[0]); return Agg('NaiveDateTime',[d.f[0],d.f[1]])
+def m_and_utc(e,run,a,f):
+    d=deref(a[0]); return Agg('DateTime',[d.f[0],d.f[1]])
+def m_dt_timestamp(e,run,a,f): return deref(a[0]).f[0]
+def m_to_rfc3339_opts(e,run,a,f):
+    d=deref(a[0]); fmt=deref(a[1])
+    if fmt.vname!='Secs': raise Unsupported('to_rfc3339_opts '+str(fmt.vname))
+    off=0 if d.ty=='DateTime' else d.f[2].v
+    loc=d.f[0].z() if d.ty=='DateTime' else e.binop('Add',d.f[0],_off64(d)).z()
+    return StringO(list(b'<rfc3339>'),True,{'kind':'rfc3339','local_secs':loc,'nanos':0,'offset':off,'zulu':deref(a[2])})
+def m_to_rfc3339(e,run,a,f):
+    d=deref(a[0])
+    off=0 if d.ty=='DateTime' else d.f[2].v
+    loc=d.f[0].z() if d.ty=='DateTime' else e.binop('Add',d.f[0],_off64(d)).z()
+    return StringO(list(b'<rfc3339>'),True,{'kind':'rfc3339','local_secs':loc,'nanos':d.f[1].v,'offset':off})
+def m_from_timestamp(e,run,a,f):
+    return some(Agg('DateTime',[deref(a[0]),deref(a[1]) if len(a)>1 else Int(32,False,0)]))
+def register_chrono(E):
+    M=E.model
+    M(r'^DateTime::parse_from_rfc3339$|^chrono::DateTime::parse_from_rfc3339$',m_parse_rfc3339)
+    M(r'^DateTime::with_timezone$',m_with_timezone_utc); M(r'^DateTime::to_utc$',m_with_timezone_utc)
+    M(r'^<DateTime<Utc> as From<DateTime<FixedOffset>>>::from$',m_with_timezone_utc)
+    M(r'^<DateTime<FixedOffset> as Into<DateTime<Utc>>>::into$',m_with_timezone_utc)
+    M(r'^DateTime::naive_local$',m_naive_local); M(r'^DateTime::naive_utc$',m_naive_utc)
+    M(r'^NaiveDateTime::and_utc$',m_and_utc)
+    M(r'^DateTime::timestamp$',m_dt_timestamp)
+    M(r'^DateTime::to_rfc3339_opts$',m_to_rfc3339_opts); M(r'^DateTime::to_rfc3339$',m_to_rfc3339)
+    M(r'^DateTime::from_timestamp$',m_from_timestamp)
+_old_register_all7=register_all
+def register_all(E):
+    register_chrono(E); _old_register_all7(E)
